@@ -582,4 +582,219 @@ theorem FlowR_then_jcc {A : List (String × H)} {l : String} (pre : List Line) (
       exact FlowR_cond (localRef_of_startsDot hs) hm (by decide)
   exact (FlowR_append h1 h2 (by decide)).conv (by decide) (fun _ _ h => Or.inr h) (fun _ _ h => by simpa using h)
 
+theorem FlowR_caseLadder {A : List (String × H)} (wide : Bool) (c : Case) (hs : startsDot (cstr c.label) = true)
+    (hm : (cstr c.label, (⟨0, 0⟩ : H)) ∈ A) :
+    FlowR A ⟨0, 0⟩ ((caseLadder wide c).flatMap classify) [] H.zero := by
+  unfold caseLadder
+  dsimp only
+  split
+  · cases wide <;> (repeat' split) <;>
+      exact FlowR_then_jcc _ "je" (Or.inl rfl) rfl hs hm
+  · cases wide <;> (repeat' split) <;>
+      exact FlowR_then_jcc _ "jbe" (Or.inr rfl) rfl hs hm
+
+theorem FlowR_ladder {A : List (String × H)} (wide : Bool) : ∀ cases : List Case,
+    (∀ c ∈ cases, startsDot (cstr c.label) = true ∧ (cstr c.label, (⟨0, 0⟩ : H)) ∈ A) →
+    FlowR A ⟨0, 0⟩ ((cases.flatMap (caseLadder wide)).flatMap classify) [] H.zero
+  | [], _ => FlowR_nil
+  | c :: rest, h => by
+    rw [List.flatMap_cons, List.flatMap_append]
+    have h1 := FlowR_caseLadder wide c (h c List.mem_cons_self).1 (h c List.mem_cons_self).2
+    have h2 := FlowR_ladder wide rest (fun c' hc' => h c' (List.mem_cons_of_mem _ hc'))
+    exact (FlowR_append h1 h2 (by decide)).conv (by decide) (fun _ _ h => Or.inr h) (fun _ _ h => by simpa using h)
+
+/-- the compare ladder of a `switch` -/
+def swLadder (cty : Option Ty) (cases : List Case) : M Unit :=
+  match cases with
+  | [] => pure ()
+  | _ => do
+    let ty ← needTy "node->cond->ty" cty
+    emits (cases.flatMap (caseLadder (ty.size == 8)))
+
+/-- the jump to the `default` label -/
+def swDflt (dflt : Option (Option String)) : M Unit :=
+  match dflt with
+  | some l => emit (ins1 "jmp" (.s (cstr l)))
+  | none => pure ()
+
+theorem switchArm_eq (c : M Unit) (cty : Option Ty) (t : M Unit) (brk : Option String) (cases : List Case)
+    (dflt : Option (Option String)) :
+    switchArm c cty t brk cases dflt = (do
+      c
+      swLadder cty cases
+      swDflt dflt
+      emit (ins1 "jmp" (.s (cstr brk)))
+      t
+      emit (.label (cstr brk))) := by
+  unfold switchArm swLadder swDflt
+  cases cases <;> cases dflt <;> simp only [M_pure_bind, M_bind_assoc]
+
+theorem SemF_swLadder {A : List (String × H)} (cty : Option Ty) (cases : List Case)
+    (h : ∀ c ∈ cases, startsDot (cstr c.label) = true ∧ (cstr c.label, (⟨0, 0⟩ : H)) ∈ A) :
+    SemF A 0 0 (swLadder cty cases) [] 0 0 0 := by
+  unfold swLadder
+  split
+  · exact cl (Sem_pure ())
+  · exact SemF_pre (Sem_needTy _ _) fun ty => SemF_emits (FlowR_ladder _ cases h)
+
+theorem SemF_swDflt {A : List (String × H)} (dflt : Option (Option String))
+    (h : ∀ l, dflt = some l → startsDot (cstr l) = true ∧ (cstr l, (⟨0, 0⟩ : H)) ∈ A) :
+    SemF A 0 0 (swDflt dflt) [] 0 0 0 := by
+  unfold swDflt
+  cases dflt with
+  | none => exact cl (Sem_pure ())
+  | some l => exact SemF_jmp (h l rfl).1 (v := ⟨0, 0⟩) (h l rfl).2 (by constructor <;> simp)
+
+theorem SemF_switchArm {A : List (String × H)} {c t : M Unit} (cty : Option Ty) (brk : Option String)
+    (cases : List Case) (dflt : Option (Option String)) {Gt : List (String × H)}
+    (hc : SemP FlowP c 0 0 0) (ht : SemF A 0 0 t Gt 0 0 0)
+    (hb : startsDot (cstr brk) = true) (hm : (cstr brk, (⟨0, 0⟩ : H)) ∈ A)
+    (hcs : ∀ c ∈ cases, startsDot (cstr c.label) = true ∧ (cstr c.label, (⟨0, 0⟩ : H)) ∈ A)
+    (hd : ∀ l, dflt = some l → startsDot (cstr l) = true ∧ (cstr l, (⟨0, 0⟩ : H)) ∈ A) :
+    SemF A 0 0 (switchArm c cty t brk cases dflt) (Gt ++ [(cstr brk, ⟨0, 0⟩)]) 0 0 0 := by
+  rw [switchArm_eq]
+  exact (cl hc ⨾ (SemF_swLadder cty cases hcs).weak (fun _ _ h => h) (by omega) (by omega) ⨾
+     (SemF_swDflt dflt hd).weak (fun _ _ h => h) (by omega) (by omega) ⨾
+     SemF_jmp (r := 0) (x := 0) hb (v := ⟨0, 0⟩) hm (by constructor <;> simp <;> omega) ⨾
+     ht.weak (fun _ _ h => h) (by omega) (by omega) ⨾
+     SemF_label' (v := ⟨0, 0⟩) hb (by constructor <;> simp <;> omega)).conv
+    rfl rfl (by omega) (by omega) (by omega) (fun _ _ h => Or.inr h) (by mem_solve)
+
+
+/-! ### return, goto, labels -/
+
+theorem delta_regBytes (reg1 reg2 : String) (h1 : reg1 ≠ "%rsp") (h2 : reg2 ≠ "%rsp") (lo n : Nat) :
+    delta (regBytes reg1 reg2 lo n) = some ⟨0, 0⟩ := by
+  induction n with
+  | zero => simp [regBytes, delta, H.zero]
+  | succ n ih =>
+    have e1 : lineDelta (ins2 "shl" (.i 8) (.r reg2)) = some ⟨0, 0⟩ := by
+      simp [lineDelta, ins2, insDelta, dstIsRsp, isRsp, h2, x87Push, x87Pop, x87Same, plainOps]
+    have e2 : ∀ d : Int, lineDelta (ins2 "mov" (.m d "%rdi") (.r reg1)) = some ⟨0, 0⟩ := by
+      intro d
+      simp [lineDelta, ins2, insDelta, dstIsRsp, isRsp, h1, x87Push, x87Pop, x87Same, plainOps]
+    simp [regBytes, delta, e1, e2, ih]
+
+section
+variable {K : List Line → Int → Int → Prop} [CodePred K]
+
+theorem Sem_regBytes (reg1 reg2 : String) (h1 : reg1 ≠ "%rsp") (h2 : reg2 ≠ "%rsp") (lo n : Nat) :
+    SemP K (emits (regBytes reg1 reg2 lo n)) 0 0 0 :=
+  Sem_emits (delta_regBytes reg1 reg2 h1 h2 lo n)
+
+macro_rules
+  | `(tactic| sem_leaf) => `(tactic| exact Sem_regBytes _ _ (by decide) (by decide) _ _)
+
+theorem Sem_copyStructReg (env : Env) : SemP K (copyStructReg env) 0 0 0 := by
+  unfold copyStructReg
+  sem
+
+theorem Sem_copyStructMem (env : Env) : SemP K (copyStructMem env) 0 0 0 := by
+  unfold copyStructMem
+  sem
+
+/-- the value part of `return`: evaluate the operand, move a struct into its return registers / buffer -/
+def retVal (env : Env) (lhs : Option (M Unit × Option Ty)) : M Unit :=
+  match lhs with
+  | some (x, ty?) => do
+    x
+    let ty ← needTy "node->lhs->ty" ty?
+    match ty.kind with
+    | .struct | .union =>
+      if ty.size ≤ 16 then copyStructReg env else copyStructMem env
+    | _ => pure ()
+  | none => pure ()
+
+theorem returnArm_eq (env : Env) (lhs : Option (M Unit × Option Ty)) :
+    returnArm env lhs = (do
+      retVal env lhs
+      emit (ins1 "jmp" (.s s!".L.return.{cstr env.fnName}"))) := by
+  unfold returnArm retVal
+  cases lhs with
+  | none => simp only [M_pure_bind]
+  | some y =>
+    obtain ⟨x, ty?⟩ := y
+    simp only [M_bind_assoc]
+    congr 1; funext _; congr 1; funext ty
+    cases ty.kind <;> simp only [M_pure_bind] <;> split <;> rfl
+
+/-- x87 height at the jump of a `return` -/
+def retX (lhs : Option (M Unit × Option Ty)) : Int :=
+  match lhs with
+  | some y => xOf y.2
+  | none => 0
+
+theorem Sem_retVal (env : Env) (lhs : Option (M Unit × Option Ty))
+    (h : ∀ y, lhs = some y → SemP K y.1 0 (xOf y.2) 0) : SemP K (retVal env lhs) 0 (retX lhs) 0 := by
+  unfold retVal retX
+  cases lhs with
+  | none => exact Sem_pure ()
+  | some y =>
+    obtain ⟨x, ty?⟩ := y
+    have hx : SemP K x 0 (xOf ty?) 0 := h _ rfl
+    have c1 := Sem_copyStructReg (K := K) env
+    have c2 := Sem_copyStructMem (K := K) env
+    dsimp only
+    sem
+end
+
+theorem startsDot_retLabel (env : Env) : startsDot (retLabel env) = true :=
+  startsDot_append _ _ (by decide)
+
+theorem SemF_returnArm {A : List (String × H)} (env : Env) (lhs : Option (M Unit × Option Ty)) {xr : Int}
+    (h : ∀ y, lhs = some y → SemP FlowP y.1 0 (xOf y.2) 0) (hx : retX lhs = xr)
+    (hm : (retLabel env, (⟨0, xr⟩ : H)) ∈ A) : SemF A 0 0 (returnArm env lhs) [] 0 0 0 := by
+  rw [returnArm_eq]
+  exact (cl (Sem_retVal env lhs h) ⨾
+    SemF_jmp (r := 0) (x := -xr) (startsDot_retLabel env) (v := ⟨0, xr⟩) hm
+      (by constructor <;> simp <;> omega)).conv rfl rfl (by omega) (by omega) (by omega)
+    (fun _ _ h => Or.inr h) (fun _ _ h => (List.not_mem_nil h).elim)
+
+/-- `goto` / `break` / `continue`: a jump to a label of the region -/
+theorem SemF_goto {A : List (String × H)} (i : NInfo) (l : String) (hs : startsDot l = true)
+    (hm : (l, (⟨0, 0⟩ : H)) ∈ A) :
+    SemF A 0 0 (do loc i; emit (ins1 "jmp" (.s l))) [] 0 0 0 :=
+  (cl (Sem_loc i) ⨾ SemF_jmp (r := 0) (x := 0) hs (v := ⟨0, 0⟩) hm (by constructor <;> simp)).conv
+    rfl rfl (by omega) (by omega) (by omega) (fun _ _ h => Or.inr h) (fun _ _ h => (List.not_mem_nil h).elim)
+
+/-- `goto *p`: control leaves -/
+theorem SemF_gotoExpr {A : List (String × H)} (i : NInfo) {e : M Unit} (he : SemP FlowP e 0 0 0) :
+    SemF A 0 0 (do loc i; e; emit (ins1 "jmp" (.s "*%rax"))) [] 0 0 0 := by
+  have hl : SemF A (0 - 0 - 0) (0 - 0 - 0) (emit (ins1 "jmp" (.s "*%rax"))) [] 0 0 0 := by
+    refine SemF_emit ?_
+    have : classify (ins1 "jmp" (.s "*%rax")) = [.leave] := rfl
+    rw [this]
+    exact FlowR_leave
+  exact (cl (Sem_loc i) ⨾ cl he ⨾ hl).conv rfl rfl (by omega) (by omega) (by omega)
+    (fun _ _ h => Or.inr h) (fun _ _ h => (List.not_mem_nil h).elim)
+
+/-- a labelled statement / a `case` -/
+theorem SemF_labelled {A : List (String × H)} (i : NInfo) (l : String) {t : M Unit} {Gt : List (String × H)}
+    (hs : startsDot l = true) (ht : SemF A 0 0 t Gt 0 0 0) :
+    SemF A 0 0 (do loc i; emit (.label l); t) ((l, ⟨0, 0⟩) :: Gt) 0 0 0 :=
+  (cl (Sem_loc i) ⨾ SemF_label' (v := ⟨0, 0⟩) hs (by constructor <;> simp) ⨾
+    ht.weak (fun _ _ h => h) (by omega) (by omega)).conv rfl rfl (by omega) (by omega) (by omega)
+    (fun _ _ h => Or.inr h) (by mem_solve)
+
+/-! ### regions -/
+
+/-- labels at the region base -/
+def at0 (L : List String) : List (String × H) := L.map (fun l => (l, (⟨0, 0⟩ : H)))
+
+theorem mem_at0 {L : List String} {l : String} {v : H} : (l, v) ∈ at0 L ↔ l ∈ L ∧ v = ⟨0, 0⟩ := by
+  unfold at0
+  simp only [List.mem_map, Prod.mk.injEq]
+  constructor
+  · rintro ⟨a, ha, rfl, rfl⟩; exact ⟨ha, rfl⟩
+  · rintro ⟨h1, rfl⟩; exact ⟨l, h1, rfl, rfl⟩
+
+theorem at0_append (a b : List String) : at0 (a ++ b) = at0 a ++ at0 b := by simp [at0]
+
+/-- a region whose own labels are all it assumes is closed -/
+theorem SemP_of_region {R : List String} {m : M α} {G : List (String × H)} {x : Int}
+    (h : SemF (at0 R) 0 0 m G 0 x 0) (hg : ∀ l, l ∈ R → (l, (⟨0, 0⟩ : H)) ∈ G) : SemP FlowP m 0 x 0 :=
+  SemP_of_SemF (h.conv (A' := []) (G' := []) rfl rfl rfl rfl rfl
+    (fun l v hm => Or.inl (by obtain ⟨h1, rfl⟩ := mem_at0.mp hm; exact hg l h1))
+    (fun _ _ h => (List.not_mem_nil h).elim))
+
 end ChibiVerif.Lemmas.C20
